@@ -23,6 +23,7 @@ or more generators with filters, subscripts and slices, list + list,
 
 from __future__ import annotations
 
+import re as _re
 import textwrap
 
 from .defuse import key as _tkey
@@ -149,7 +150,9 @@ def ev(t, atoms, env=None):
               "builtins.tuple": tuple, "builtins.int": int,
               "builtins.abs": abs, "builtins.divmod": divmod,
               "builtins.bool": bool, "builtins.str": str,
-              "textwrap.wrap": textwrap.wrap}.get(t[1])
+              "textwrap.wrap": textwrap.wrap,
+              "re.split": _re.split, "re.findall": _re.findall,
+              "re.sub": _re.sub}.get(t[1])
         if fn is not None:
             try:
                 return fn(*args, **kw)
@@ -198,7 +201,8 @@ def ev(t, atoms, env=None):
             base = None
         ok_str = isinstance(base, str) and t[2] in (
             "startswith", "endswith", "lower", "upper", "strip", "lstrip",
-            "rstrip", "split", "replace", "count", "find", "isdigit")
+            "rstrip", "split", "replace", "count", "find", "isdigit",
+            "splitlines", "partition", "rpartition", "rsplit")
         ok_set = isinstance(base, (set, frozenset)) and t[2] in (
             "intersection", "isdisjoint", "issubset", "issuperset", "union",
             "difference")
